@@ -460,7 +460,7 @@ func ruleTuples(rule string, tuples []tupleSpec, floor int, only ...string) Rule
 									if !isLoopVar {
 										if tv, ok := info.Types[e]; !ok || tv.Value == nil {
 											if _, isBuiltin := o.(*types.Builtin); !isBuiltin && memberOf(e) == "" {
-												if v, isVar := o.(*types.Var); !isVar || singleDef(info, fd, v) == nil && !isParamOf(info, fd, v) {
+												if v, isVar := o.(*types.Var); !isVar || singleDef(info, fd, v) == nil && !isParamOf(info, fd, v) && !isLitParamIn(info, fd, v) {
 													pure = false
 												}
 											}
@@ -1046,4 +1046,25 @@ func RuleE1(c *Ctx) {
 	} else {
 		c.Und("E4", "Equal:cross-products", fn.Pos(), "no comparison found")
 	}
+}
+
+// isLitParamIn: v is a parameter of a function literal inside fd (the start/end a worker is handed): fixed for the
+// whole run of the literal, like a parameter of fd itself.
+func isLitParamIn(info *types.Info, fd *ast.FuncDecl, v *types.Var) bool {
+	found := false
+	ast.Inspect(fd.Body, func(n ast.Node) bool {
+		lit, ok := n.(*ast.FuncLit)
+		if !ok || lit.Type.Params == nil {
+			return !found
+		}
+		for _, f := range lit.Type.Params.List {
+			for _, nm := range f.Names {
+				if info.Defs[nm] == types.Object(v) {
+					found = true
+				}
+			}
+		}
+		return !found
+	})
+	return found
 }
